@@ -6,9 +6,11 @@ set -e
 V=${1:-plain}
 REPO=${PV_REPO:-/repo}
 W=/verif/_work
-B=$W/build-$V
+SFX=""
+if [ "$REPO" != "/repo" ]; then SFX="-$(echo $REPO | md5sum | cut -c1-8)"; fi
+B=$W/build-$V$SFX
 mkdir -p $W
-exec 9>$W/.lock-$V
+exec 9>$W/.lock-$V$SFX
 flock 9
 COMMON="-DPRIMITIV_USE_EIGEN=ON -DPRIMITIV_BUILD_C_API=ON -DCMAKE_BUILD_TYPE=None"
 case $V in
